@@ -14,6 +14,14 @@ PROPS = {
         trusted_base=["DFKconvert is exercised but not modelled here (C06)", "non-HDF netCDF/CDF paths of the same functions are out of scope"],
         assumptions=["fixed-size variables in the placement tie (record variables are covered by the implementation oracle only)"],
     ),
+    "C13": dict(
+        lean_props=["H4.Props.C13Atom"],
+        engines=[
+            E("atom", "e_atom.c", model="atom", quick=dict(cases=600), thorough=dict(cases=20000, seeds=4, chunk=200)),
+        ],
+        trusted_base=["atom layer only (hdf/src/atom.c); error stack and allocation failure not modelled"],
+        assumptions=["single-threaded; fewer than 2^32 nested HAinit_group calls per group"],
+    ),
     "C16": dict(
         lean_props=["H4.Props.C16"],
         engines=[
